@@ -141,7 +141,7 @@ PROPS = {
     "C15": {
         "level": "proof",
         "lean_modules": ["RaftVerif.Properties.C15"],
-        "engines": [E4("static", 40, 400), E4("crash", 30, 300), E4("snap", 20, 200), E4D("S15-sole-voter-with-nonvoter,S27-added-member-starves-after-leader-change"), E3_AE],
+        "engines": [E4("static", 40, 400), E4("crash", 30, 300), E4("snap", 20, 200), E4D("S15-sole-voter-with-nonvoter,S27-added-member-starves-after-leader-change,S14-snapshot-retransmission-never-ends"), E3_AE],
         "explanation": "PARTIAL (liveness is outside what the model's theorems carry; only the progress-enabling facts are proved). Machine-checked: the conflict hint a follower returns lets the leader's next index move strictly below the rejected previous index and never below 1 (so the back-off terminates); a sole voter wins its election without any reply, also with non-voters present (after fix S15/S25); a member learned from a configuration entry starts with next index 1 (after fix S27), so its first request is well-formed. The convergence statement itself (after faults stop: one leader, new operations commit, every replica reaches the same applied sequence, restarted/added nodes catch up by log or snapshot) is evaluated by " + CLUSTER_NOTE + ": after every walk all partitions heal, all crashed nodes restart, delivery is prompt, and within a bounded virtual time there must be exactly one leader, a fresh write must complete at it, and every running member must reach the same applied index and hash.",
         "assumptions": ["liveness is checked by bounded-time exploration, not by a theorem: a violation is a concrete non-converging schedule; absence of one is not a proof",
                         "under membership churn convergence is only demanded when the running nodes agree on the configuration and a majority of its voters is running"],
